@@ -8,7 +8,7 @@ import pytenet as ptn
 from core import Part, require, Violation
 from gen_graph import (chain_list, build_chains, chain_tuples, physical_charges, random_opmap, layered_graph, build_graph,
                        graph_desc_poly, OID_ID, SYMBOLS)
-from oracle_sym import frac, chains_poly, graph_poly, graph_layers, poly_matrix, poly_close, poly_json
+from oracle_sym import frac, chains_poly, graph_poly, graph_layers, poly_matrix, poly_close, poly_json, absconv
 from oracle_dense import mpo_to_mat, mpo_mask_violation
 
 ID = 'C05'
@@ -25,7 +25,7 @@ def float_conv(c):
     return complex(c) if isinstance(c, complex) else float(c)
 
 
-def compare_poly(got, want, exact, what):
+def compare_poly(got, want, exact, what, scale=None):
     if exact:
         if got != want:
             diff = {k: (str(got.get(k, 0)), str(want.get(k, 0))) for k in set(got) | set(want) if got.get(k, 0) != want.get(k, 0)}
@@ -33,12 +33,12 @@ def compare_poly(got, want, exact, what):
             raise Violation(f'{what}: denoted operator differs; first differing monomial {list(k)}: graph {diff[k][0]} vs chains {diff[k][1]} '
                             f'({len(diff)} monomials differ)')
     else:
-        ok, worst = poly_close(got, want)
+        ok, worst = poly_close(got, want, scale=scale)
         if not ok:
             raise Violation(f'{what}: denoted operator differs at monomial {list(worst[0])}: graph {worst[1]} vs reference {worst[2]}')
 
 
-def judge_from_opgraph(graph, L, qd, opmap, poly, rec):
+def judge_from_opgraph(graph, L, qd, opmap, poly, rec, magsum=None):
     """MPO conversion of a consistent graph: charges from nodes, nid_map, tensor slices, dense meaning."""
     mpo = ptn.MPO.from_opgraph(qd, graph, opmap, compute_nid_map=True)
     require(mpo.nsites == L, 'MPO has the wrong number of sites', got=mpo.nsites, want=L)
@@ -74,7 +74,9 @@ def judge_from_opgraph(graph, L, qd, opmap, poly, rec):
         require(mpo_mask_violation(A, mpo.qd, mpo.qD[l], mpo.qD[l + 1]) == 0, 'tensor not block sparse under the node charges', site=l)
     M = mpo_to_mat(mpo.A)
     ref = poly_matrix(poly, opmap, d, L)
-    mag = sum(abs(complex(c)) for c in poly.values()) * max(1.0, max(np.linalg.norm(m, 2) for m in opmap.values())) ** L
+    if magsum is None:
+        magsum = sum(abs(complex(c)) for c in poly.values())
+    mag = magsum * max(1.0, max(np.linalg.norm(m, 2) for m in opmap.values())) ** L
     err = np.linalg.norm(M - ref)
     require(err <= 1e-11 * max(mag, 1.0) * max(1, len(poly)), 'dense matrix of the MPO differs from the denoted operator', err=err, magnitude=mag)
     rec.metric('mpo_dense_err', err / max(mag, 1.0))
@@ -97,7 +99,8 @@ def check_chain_list(case, rec):
     require(graph.is_consistent(), 'graph fails its own consistency check')
     require(graph.length == L, 'graph has the wrong length', got=graph.length, want=L)
     got = graph_poly(graph, conv)
-    compare_poly(got, want, exact, 'from_opchains')
+    magsum = float(sum(chains_poly(chain_tuples(case), L, OID_ID, absconv).values()))
+    compare_poly(got, want, exact, 'from_opchains', scale=magsum)
     # labels
     nz = [c for c in case['chains'] if c['coeff'] != 0]
     keys = {tuple([OID_ID] * c['istart'] + c['oids'] + [OID_ID] * (L - c['istart'] - len(c['oids']))) for c in nz}
@@ -120,7 +123,7 @@ def check_chain_list(case, rec):
         seed = case.get('opseed', 0)
         qd = physical_charges(case['charged'], seed, L)
         opmap = random_opmap(qd, case['charged'], seed + 1)
-        judge_from_opgraph(graph, L, qd, opmap, want, rec)
+        judge_from_opgraph(graph, L, qd, opmap, want, rec, magsum=magsum)
         rec.label('mpo_converted')
 
 
@@ -202,10 +205,11 @@ def check_graph_to_mpo(case, rec):
     require(graph.is_consistent(), 'generated graph is inconsistent (generator post-condition)')
     want = graph_desc_poly(g, conv)
     got = graph_poly(graph, conv)
-    compare_poly(got, want, exact, 'graph construction')
+    magsum = float(sum(graph_desc_poly(g, absconv).values()))
+    compare_poly(got, want, exact, 'graph construction', scale=magsum)
     qd = physical_charges(g['charged'], case['opseed'], g['L'])
     opmap = random_opmap(qd, g['charged'], case['opseed'] + 1)
-    judge_from_opgraph(graph, g['L'], qd, opmap, want, rec)
+    judge_from_opgraph(graph, g['L'], qd, opmap, want, rec, magsum=magsum)
     widths = {}
     for n in g['nodes']:
         widths[n[2]] = widths.get(n[2], 0) + 1
